@@ -413,6 +413,55 @@ def ramp_attached_later(M, rec, rng, g):
         rec.violation(f"{PROP}:ramp attached later:numpy: the extended network cannot be stepped ({type(e).__name__})", {"exception": repr(e)[:300]})
 
 
+def symbolic_turn_rates(M, rec, rng, g, st):
+    """Turn rates that are SYMBOLS declared as function parameters (`turnrate : float or variable`; route choice as a
+    decision variable of an optimisation): the compiled function evaluated at (b_1..b_k) and at c * (b_1..b_k) gives the same
+    next states, and the ones of the NumPy step with those numbers."""
+    from vf import compilecases as CC
+
+    desc = copy.deepcopy(g.network(rng.choice(("bifurcation", "crossing", "random", "bifurcation")))[1])
+    ins, outs, org, dst = R.topology(desc)
+    split = [n_ for n_ in desc["nodes"] if len(outs[n_]) >= 2]
+    if not split or any(l.get("user_cap") is not None or l.get("user_reorder") for l in desc["links"]):
+        return
+    keys = [(l_["id"], "beta") for n_ in split for l_ in outs[n_]]
+    pars = g.pars()
+    _, vals = g.values(desc, "interior", allow_inf=False)
+    if R.is_singular(desc, vals):
+        return
+    try:
+        case = CC.CompileCase(M, rng, desc, pars, st, keys, {}, own_symbols=(rng.random() < 0.5), prestep=False)
+        compact = rng.choice((0, 1, 2))
+        F = case.compile(compact, False)
+        base = case.call(F, vals, compact, False)[0]
+        c_ = rng.choice((0.01, 0.5, 3.0, 17.0))
+        pv = {k_: ([x_ * c_ for x_ in v_] if isinstance(v_, list) else v_ * c_) for k_, v_ in case.pvalues.items()}
+        scaled = case.call(F, vals, compact, False, pvalues=pv)[0]
+        twin, _b = CC.numpy_twin_next(M, desc, vals, pars)
+    except Exception as e:
+        rec.violation(f"{PROP}:symbolic turn rates:{st}: a network whose turn rates are declared parameters cannot be stepped / compiled / evaluated ({type(e).__name__})",
+                      {"desc": desc, "exception": repr(e)[:300]})
+        return
+    rec.count("relation_symbolic_turn_rates")
+    ctx = {"desc": desc, "vals": vals, "pars": pars, "engine": st, "compact": compact, "scaled_by": c_}
+    same(rec, "symbolic turn rates evaluated at b and at c * b", st, desc, base, scaled, ctx)
+    close_(rec, "symbolic turn rates evaluated at the numbers vs the NumPy step with those numbers", st, desc, twin, base, ctx)
+
+
+def close_(rec, rel, kind, desc, A, B, ctx):
+    for eid, d in A.items():
+        for name, v in d.items():
+            va = v if isinstance(v, list) else [v]
+            vb = B[eid][name] if isinstance(B[eid][name], list) else [B[eid][name]]
+            for i, (x, y) in enumerate(zip(va, vb)):
+                rec.count("scalars_compared")
+                if math.isnan(x) and math.isnan(y):
+                    continue
+                if not (x == y or abs(x - y) <= 1e-9 * (1 + abs(x) + abs(y))):
+                    rec.violation(f"{PROP}:{rel}:{kind}: {name}+ differs", dict(ctx, element=eid, var=name, index=i, base=x, related=y))
+                    return
+
+
 def state_dependent_turn_rates(M, rec, rng, g):
     """A user link kind whose turn rate is a property of its current state (route choice reacting to traffic):
     the share of the node's inflow a leaving link receives is its CURRENT turn rate over the sum of the current
@@ -475,6 +524,8 @@ def run(M, rec, tier, seed, k, n):
             state_dependent_turn_rates(M, rec, rng, g)
         if it % 4 == 2:
             ramp_attached_later(M, rec, rng, g)
+        if it % 4 == 0:
+            symbolic_turn_rates(M, rec, rng, g, ("SX", "MX")[(it // 4) % 2])
     networks_sharing_nodes(M, rec, rng, 40 if tier == "quick" else 400)
 
 
